@@ -568,7 +568,9 @@ impl Store {
         if filter.num_ids() > 0 {
             // Fetch by id
             for id in filter.ids() {
-                if let Some(event) = self.get_event_by_id(id)? {
+                // look every id up in the one snapshot this query runs in
+                if let Some(offset) = self.indexes.get_offset_by_id(&txn, id)? {
+                    let event = unsafe { self.events.get_event_by_offset(offset as usize)? };
                     // and check each against the rest of the filter
                     if filter.event_matches(event)? && screen(event) {
                         let _ = output.insert(event);
